@@ -333,7 +333,7 @@ func c18Deadlines(r *Run) {
 	durs := []time.Duration{-time.Hour, -time.Nanosecond, time.Nanosecond, time.Millisecond, time.Second, 30 * time.Second}
 	var plan []step
 	for i := 0; i < nSteps; i++ {
-		plan = append(plan, step{kind: t.Draw(5), d: durs[t.Draw(len(durs))], reset: t.Draw(2), mid: t.Draw(2) == 1})
+		plan = append(plan, step{kind: t.Draw(6), d: durs[t.Draw(len(durs))], reset: t.Draw(2), mid: t.Draw(2) == 1})
 	}
 	terminal := t.Draw(5) // 0 none, 1 active read, 2 active write, 3/4 a past deadline set while a Read / Write is blocked
 	// bgRead: a Read is blocked in another goroutine during the whole program,
@@ -358,7 +358,7 @@ func c18Deadlines(r *Run) {
 	r.Class = fmt.Sprintf("deadline/cli%v/t%d/n%d", o.LibClient, terminal, nSteps)
 	var pd []string
 	for _, s := range plan {
-		pd = append(pd, fmt.Sprintf("%s/%v/reset%d", []string{"rt", "idle-read", "idle-write", "idle-both", "future"}[s.kind], s.d, s.reset))
+		pd = append(pd, fmt.Sprintf("%s/%v/reset%d", []string{"rt", "idle-read", "idle-write", "idle-both", "future", "future-then-cleared"}[s.kind], s.d, s.reset))
 	}
 	r.D("plan", pd)
 	r.D("terminal", []string{"none", "active-read", "active-write", "interrupt-read", "interrupt-write"}[terminal])
@@ -490,6 +490,26 @@ func c18Deadlines(r *Run) {
 					}
 				}
 				if !roundTrip("after reset, " + where) {
+					return
+				}
+			case 5:
+				// a deadline in the future that is cleared (or pushed far away) before it
+				// passes must have no effect when its original instant goes by
+				d := s.d
+				if d < time.Millisecond {
+					d = time.Second
+				}
+				which := int(d/time.Millisecond+time.Duration(i)) % 3
+				set := []func(time.Time) error{nc.SetDeadline, nc.SetReadDeadline, nc.SetWriteDeadline}[which]
+				set(time.Now().Add(d))
+				if s.reset == 0 {
+					set(time.Time{})
+				} else {
+					set(time.Now().Add(time.Hour))
+				}
+				r.S.Sleep(d + time.Second)
+				r.S.Count("probe.cleared-deadline-instant-passed")
+				if !roundTrip("after the instant of a cleared deadline passed, " + where) {
 					return
 				}
 			case 4:
